@@ -22,6 +22,7 @@ TRUSTED_BASE = [
 RULE_DOC = {
     "R-REL": "every header offset/length is relative to the archive start (independent of the stream's starting position P)",
     "R-LAYOUT-W": "each section's header offset/length equals where and how much the writer actually wrote; root directly after the 127-byte header",
+    "R-SECTION-CONTENT": "each section write carries what it should: layout directory + internal compression (root), serde_json(meta_data) once through compress(internal_compression, output) (metadata), the returned leaf bytes (leaf), the layout's tile data (data)",
     "R-ABS": "absolute seeks are P-based; the header lands at P; the stream is left at the archive's end",
     "R-NO-WRITE-BEFORE-P": "no seek goes below the starting position",
     "R-SEEK-FIRST": "the writer first skips the header region",
@@ -53,6 +54,7 @@ RULE_DOC = {
     "R-RLE-DEP": "a run is extended only for the adjacent id with the same offset, by exactly one",
     "R-ORDER": "hash-map iteration order never reaches the output: sorted ascending by tile id first",
     "R-CLUSTERED": "clustered=true is backed by the sorted single layout pass",
+    "R-HASHFN": "the content hash is finish() of a hasher that was fed the whole value",
     "R-HASH-NOLEAK": "content hashes are only map keys",
     "R-CFG-JSONORDER": "serde_json key-ordered maps, fixed-key content hash",
     "R-HDR-LAYOUT": "derived header byte layout equals the v3 table entry by entry (127 bytes)",
@@ -73,6 +75,7 @@ RULE_DOC = {
     "R-TAINT-ARITH": "arithmetic on input-derived integers is checked, width-safe, guarded or allow-listed with a reason",
     "R-TAINT-ALLOC": "allocation sizes derived from input are clamped or bounded by type",
     "R-TAINT-INDEX": "indexing with/into input-derived data is guarded or allow-listed",
+    "R-WALK-DEPTH": "the walker's depth budget admits at least root + three nested leaf levels from every entry point (start, step and limit read off the code)",
     "R-REC-BOUND": "recursion threads a constant-bounded depth",
     "R-RANGE-END": "the inclusive range end is computed without unchecked arithmetic",
     "R-LEAF-SKIP": "a leaf is skipped only if its first id is strictly beyond the inclusive end",
@@ -96,8 +99,8 @@ def prop(pid, rules, explanation, decides, does_not_decide, **kw):
 
 RUNTIME = "run-time equalities over all inputs (round trips, byte equality with independent codecs) — quantify over values; only the named structural necessary conditions are decided"
 
-prop("C01", [rw.r_layout_w, rw.r_fieldmap_w, rr.r_fieldmap_r, rr.r_addr_open, rr.r_exact_tile, rh.r_round, st.r_hashid, st.r_finish_pair, st.r_rle_dep, st.r_order,
-              rs.r_budget, rs.r_leafptr, rs.r_reseek, rd.r_cols_reader, rd.r_cols_writer, rr.r_walk, rr.r_meta0, rh.r_hdr_io, st.r_add_pair, st.r_remove_guard, st.r_lookup, rt.r_factory, rr.r_bounded_read, rr.r_seek_after_codec, st.r_add_offset, rt.r_finalise_async],
+prop("C01", [rw.r_layout_w, rw.r_section_content, rw.r_fieldmap_w, rr.r_fieldmap_r, rr.r_addr_open, rr.r_exact_tile, rh.r_round, st.r_hashid, st.r_hashfn, st.r_finish_pair, st.r_rle_dep, st.r_order,
+              rs.r_budget, rs.r_leafptr, rs.r_reseek, rd.r_cols_reader, rd.r_cols_writer, rr.r_walk, tt.r_walk_complete, rr.r_meta0, rh.r_hdr_io, st.r_add_pair, st.r_remove_guard, st.r_lookup, rt.r_factory, rr.r_bounded_read, rr.r_seek_after_codec, st.r_add_offset, rt.r_finalise_async],
      "Necessary conditions of the write→read round trip, decided on both twins: header settings are paired field by field in writer and opener (R-FIELDMAP), section "
      "offsets/lengths equal the measured writes (R-LAYOUT-W, affine stream model), the opener rebases entry offsets by tile_data_offset and the lookup reads exactly "
      "(offset,length) (R-ADDR/R-EXACT-TILE), coordinates are rounded to nearest (R-ROUND), contents are laid out once with offsets read before the append "
@@ -106,21 +109,21 @@ prop("C01", [rw.r_layout_w, rw.r_fieldmap_w, rr.r_fieldmap_r, rr.r_addr_open, rr
      ["R-FIELDMAP", "R-LAYOUT-W", "R-REL", "R-ADDR", "R-EXACT-TILE", "R-ROUND", "R-FINISH-PAIR", "R-COUNTERS", "R-HASHID", "R-COLS", "R-DELTA", "R-OFFRULE", "R-LEAFPTR", "R-BUDGET", "R-RESEEK", "R-WALK", "R-META0", "R-RLE-DEP", "R-ORDER", "R-HDR-IO"],
      [RUNTIME, "metadata equality through serde_json", "contents larger than 4 GiB"])
 
-prop("C02", [rh.r_hdr_layout, rw.r_hdr_const, rw.r_layout_w, rs.r_budget, rs.r_leafptr, rs.r_reseek, st.r_finish_pair, st.r_rle_dep, rw.r_fieldmap_w, st.r_order, st.r_clustered, rd.r_cols_writer, rc.r_cfg_jsonorder, rh.r_hdr_io, rt.r_factory, rt.r_finalise_async],
+prop("C02", [rh.r_hdr_layout, rw.r_hdr_const, rw.r_layout_w, rw.r_section_content, rs.r_budget, rs.r_leafptr, rs.r_reseek, st.r_finish_pair, st.r_rle_dep, rw.r_fieldmap_w, st.r_order, st.r_clustered, rd.r_cols_writer, rc.r_cfg_jsonorder, rh.r_hdr_io, rt.r_factory, rt.r_finalise_async],
      "Static agreement of the writer with the v3 specification table (/verif/spec/v3.json, transcribed from the spec): derived header byte layout and enum codes "
      "(R-HDR-LAYOUT), spec_version 3, sections laid out back to back after the header with offsets equal to the measured positions, root directory ≤ 16 257 bytes, "
      "counters computed once per entry/content and passed name for name, clustered=true backed by an ascending sort before layout, directory columns in spec order.",
      ["R-HDR-LAYOUT", "R-HDR-CONST", "R-LAYOUT-W", "R-BUDGET", "R-COUNTERS", "R-FINISH-PAIR", "R-ORDER", "R-CLUSTERED", "R-COLS (encoder)", "metadata field is a JSON object map (type fact)"],
      [RUNTIME, "that directories decode with an independent reader", "the spec's lookup procedure on produced files"])
 
-prop("C03", [rr.r_walk, rr.r_addr_open, rr.r_exact_tile, rr.r_meta0, rr.r_fieldmap_r, rr.r_find, rd.r_cols_reader, rr.r_rej_meta, rr.r_bounded_read, rh.r_hdr_io, rt.r_factory, rr.r_seek_after_codec, st.r_add_offset],
+prop("C03", [rr.r_walk, tt.r_walk_complete, rr.r_addr_open, rr.r_exact_tile, rr.r_meta0, rr.r_fieldmap_r, rr.r_find, rd.r_cols_reader, rr.r_rej_meta, rr.r_bounded_read, rh.r_hdr_io, rt.r_factory, rr.r_seek_after_codec, st.r_add_offset, tt.r_depth_admits],
      "The opener, directory walker, decoder and lazy fetch are checked path by path: runs are expanded for the entry whose offset/length are stored, recursion uses "
      "leaf base + entry offset and the entry's length, leaf/tile dispatch is on run_length == 0, tile addresses are rebased by tile_data_offset, metadata length 0 "
      "yields an empty object without reads, settings are reported from the header fields, single-directory lookup uses !leaf && range.contains.",
      ["R-WALK", "R-ADDR", "R-EXACT-TILE", "R-META0", "R-FIELDMAP (reader)", "R-FIND", "R-COLS/R-DELTA/R-OFFRULE (decoder)"],
      [RUNTIME, "correctness on every foreign layout at run time"])
 
-prop("C04", [st.r_hashid, st.r_add_pair, st.r_remove_guard, st.r_lookup, st.r_rej_empty, rr.r_exact_tile, st.r_finish_pair, st.r_rle_dep, rr.r_addr_open, rr.r_walk, st.r_order, rd.r_cols_writer, rd.r_cols_reader, rw.r_layout_w, rs.r_leafptr, st.r_listing, st.r_add_offset],
+prop("C04", [st.r_hashid, st.r_hashfn, st.r_add_pair, st.r_remove_guard, st.r_lookup, st.r_rej_empty, rr.r_exact_tile, st.r_finish_pair, st.r_rle_dep, rr.r_addr_open, rr.r_walk, tt.r_walk_complete, st.r_order, rd.r_cols_writer, rd.r_cols_reader, rw.r_layout_w, rw.r_section_content, rs.r_leafptr, st.r_listing, st.r_add_offset],
      "Structural necessary conditions each store mutator must satisfy for the store to behave like a map: add removes the old binding and performs exactly one "
      "consistent insert into each map, remove drops bytes only under an emptiness test made after removing the id, lookup resolves the requested id and answers None "
      "for unknown ids, and content identity is not decided by the 64-bit hash alone (R-HASHID: known finding with a concrete colliding pair).",
@@ -134,7 +137,7 @@ prop("C05", [rd.r_cols_reader, rd.r_cols_writer, rd.r_len0_err, rd.r_dir_twins, 
      ["R-COLS", "R-DELTA", "R-OFFRULE", "R-LEN0"],
      [RUNTIME, "codec round trips (library behaviour)"])
 
-prop("C06", [rs.r_budget, rs.r_leafptr, rs.r_reseek, rw.r_layout_w, rd.r_cols_writer, rd.r_cols_reader, rr.r_walk, rt.r_finalise_async],
+prop("C06", [rs.r_budget, rs.r_leafptr, rs.r_reseek, rw.r_layout_w, rw.r_section_content, rd.r_cols_writer, rd.r_cols_reader, rr.r_walk, tt.r_walk_complete, rt.r_finalise_async],
      "The root writers are analysed with the stream-position model: every Ok exit is dominated by a comparison of the *measured* root length against exactly 16 257 "
      "(spill: at most), the fitting case returns an empty leaf section, leaf pointers carry chunk[0].tile_id / cursor position before the leaf write / bytes written / "
      "run_length 0, each retry re-seeks to the remembered start and grows the leaf size, and the archive writer places the returned leaf bytes after the metadata.",
@@ -161,21 +164,21 @@ prop("C09", [rh.r_hdr_layout, rh.r_hdr_io, rh.r_hdr_reject, rh.r_round],
      ["R-HDR-LAYOUT", "R-HDR-IO", "R-HDR-REJECT", "R-ROUND"],
      ["deku's generated code", "the exhaustive 2^32 coordinate claim (implied by R-ROUND and an error bound, not enumerated)"])
 
-prop("C10", [st.r_hashid, st.r_finish_pair, st.r_rle_dep, st.r_remove_guard, st.r_add_pair, rr.r_exact_tile, st.r_order, st.r_lookup, rd.r_cols_writer, rd.r_cols_reader],
+prop("C10", [st.r_hashid, st.r_hashfn, st.r_finish_pair, st.r_rle_dep, st.r_remove_guard, st.r_add_pair, rr.r_exact_tile, st.r_order, st.r_lookup, rd.r_cols_writer, rd.r_cols_reader],
      "Layout: bytes are appended exactly on the dedup miss, once, with the offset read before the append and the length of the appended content; a hit reuses the "
      "stored pair; reader-backed tiles are hashed with the same function; a run is extended only for the adjacent id with an equal offset, by one; in memory, bytes "
      "are dropped only when the last id goes away. R-HASHID (identity by bytes) is a known finding.",
      ["R-FINISH-PAIR", "R-COUNTERS", "R-RLE-DEP", "R-REMOVE-GUARD", "R-ADD-PAIR", "R-HASHID"],
      [RUNTIME, "minimality over all duplication patterns", "retention over edit histories"])
 
-prop("C11", [tt.r_range_end, tt.r_leaf_skip_and_filter, tt.r_partial_same, rr.r_walk, rr.r_addr_open, rd.r_cols_reader, rr.r_bounded_read],
+prop("C11", [tt.r_range_end, tt.r_leaf_skip_and_filter, tt.r_filter_complete, tt.r_partial_same, rr.r_walk, tt.r_walk_complete, rr.r_addr_open, rd.r_cols_reader, rr.r_bounded_read],
      "The inclusive range end is computed without unchecked arithmetic for all three bound kinds; every map insert in the walker is dominated by "
      "filter_range.contains(&id) for the inserted id and the filter is forwarded unchanged; a leaf is skipped only on `first id > inclusive end` (strict, unbounded ⇒ "
      "never, independent of the start bound); full and partial opens are one implementation differing only in the range argument.",
      ["R-RANGE-END", "R-FILTER-GUARD", "R-LEAF-SKIP", "R-PARTIAL-SAME"],
      [RUNTIME])
 
-prop("C12", [rt.r_twin, rt.r_factory, rd.r_dir_twins, rr.r_seek_after_codec, rt.r_finalise_async],
+prop("C12", [rt.r_twin, rt.r_factory, rd.r_dir_twins, rr.r_seek_after_codec, rt.r_finalise_async, tt.r_depth_twins],
      "Sibling agreement on code the test suite never compiles: every sync/async pair instantiated from one duplicate_item template must be isomorphic after making "
      "`?`, .await and async blocks transparent and mapping callees through the twin table (Read↔AsyncReadExt, flush↔close for codec writers, read_varint↔_async, local "
      "f↔f_async; integer type arguments must agree); hand-written pairs must have the same stream-effect/parser skeleton; the four codec factories must agree per variant.",
@@ -202,14 +205,14 @@ prop("C15", [rt.r_result_used, rt.r_finalise, rt.r_no_unwrap],
      ["R-RESULT-USED", "R-NO-UNWRAP", "R-FINALISE"],
      ["exhaustive fault points at run time", "completeness of library error paths"])
 
-prop("C16", [st.r_order, st.r_hash_noleak, rc.r_cfg_jsonorder, rh.r_round, st.r_finish_pair, st.r_add_pair, st.r_remove_guard, st.r_rle_dep, rw.r_layout_w, rs.r_leafptr, rs.r_budget, rd.r_cols_writer, st.r_clustered, rd.r_cols_reader],
+prop("C16", [st.r_order, st.r_hash_noleak, rc.r_cfg_jsonorder, rh.r_round, st.r_finish_pair, st.r_add_pair, st.r_remove_guard, st.r_rle_dep, rw.r_layout_w, rs.r_leafptr, rd.r_cols_writer, st.r_clustered, rd.r_cols_reader],
      "Sources of non-canonical output are closed structurally: the only hash-ordered iteration on the write path is sorted ascending by tile id before layout; content "
      "hashes are used only as map keys; serde_json is resolved without preserve_order and ahash with fixed keys; stored coordinates survive decode→encode (R-ROUND); "
      "in-memory and reader-backed tiles take the same layout path.",
      ["R-ORDER", "R-HASH-NOLEAK", "R-CFG-JSONORDER", "R-ROUND", "R-FINISH-PAIR"],
      [RUNTIME, "determinism of the codec libraries", "cross-process equality at run time"])
 
-prop("C17", [rw.r_commit_order, rh.r_hdr_io, rh.r_hdr_reject, rw.r_layout_w, rs.r_reseek],
+prop("C17", [rw.r_commit_order, rh.r_hdr_io, rh.r_hdr_reject],
      "Commit ordering on every success path of both writer twins: the first effect on the output is a seek to P+127, every section write precedes the header write, the "
      "header write is the last write effect, and the header reaches the stream through a single write_all; the reader rejects a missing magic.",
      ["R-SEEK-FIRST", "R-HDR-LAST", "R-HDR-IO", "R-HDR-REJECT"],
@@ -229,7 +232,7 @@ prop("C19", [st.r_rej_empty, rd.r_len0_err, rd.r_cols_reader, rd.r_cols_writer, 
      ["R-REJ-EMPTY", "R-LEN0", "R-REJ-META", "R-REJ-UNKNOWN", "R-CODEC-ALWAYS"],
      ["'leaves the archive unchanged' beyond 'no mutation before the guard'"])
 
-prop("C20", [rr.r_lazy, rr.r_bounded_read, rr.r_exact_tile, rh.r_hdr_io, rr.r_walk, rr.r_meta0, rr.r_addr_open, rr.r_seek_after_codec],
+prop("C20", [rr.r_lazy, rr.r_bounded_read, rr.r_exact_tile, rh.r_hdr_io, rr.r_walk, tt.r_walk_complete, rr.r_meta0, rr.r_addr_open, rr.r_seek_after_codec],
      "Call-graph and read-summary analysis: no function that fetches tile bytes is reachable from the opener; registering a tile has no stream effect; every read on "
      "the open path is the fixed 127-byte header read or goes through take(len) after seek(Start(off)) with (off,len) a header-declared section or the walker's leaf "
      "pair; a lookup seeks to the stored offset and performs exactly one read_exact of the stored length.",
